@@ -2,6 +2,8 @@ import Diffcalc.Gen.SolverLeaf
 import Diffcalc.Gen.UtilLeaf
 import Diffcalc.Solver.Reference
 import Diffcalc.Solver.Func
+import Diffcalc.Solver.Sample
+import Diffcalc.Solver.Detector
 /-!
 # Tie T for straight-line pieces of the solver model
 
@@ -22,6 +24,25 @@ theorem chiAndQaz_generated (mu eta : α) (V : M3 α) : Gen.get_chi_and_qaz mu e
 theorem qazValue_generated (mu eta chi phi : α) (h : V3 α) (theta : α) :
     Gen.get_qaz_value mu eta chi phi h theta = Solver.qazValue mu eta chi phi h theta := rfl
 
+theorem sampleFromChiEta_generated (chi eta : α) (Z : M3 α) : Gen.calc_sample_from_chi_eta chi eta Z = Solver.sampleFromChiEta chi eta Z := rfl
+
+theorem detFromQaz_generated (qaz theta : α) : Gen.calc_remaining_detector_angles_qaz qaz theta = Solver.detFromQaz qaz theta := rfl
+
+/-! four of the six reference + two-sample branches (`calc_reference.py`), whole bodies: matrix products, guards, `try … except AssertionError`,
+the candidate lists and the loops -/
+
+theorem refConChiMu_generated (chi mu psi theta : α) (N : M3 α) :
+    Gen.calc_sample_ref_con_chi_mu chi mu psi theta N = Solver.refConChiMu chi mu psi theta N := rfl
+
+theorem refConMuPhi_generated (mu phi psi theta : α) (N : M3 α) :
+    Gen.calc_sample_ref_con_mu_phi mu phi psi theta N = Solver.refConMuPhi mu phi psi theta N := rfl
+
+theorem refConEtaPhi_generated (eta phi psi theta : α) (N : M3 α) :
+    Gen.calc_sample_ref_con_eta_phi eta phi psi theta N = Solver.refConEtaPhi eta phi psi theta N := rfl
+
+theorem refConChiPhi_generated (chi phi psi theta : α) (N : M3 α) :
+    Gen.calc_sample_ref_con_chi_phi chi phi psi theta N = Solver.refConChiPhi chi phi psi theta N := rfl
+
 /-! the numeric primitives everything else is built from (`util.py`): the tolerance constant, `bound`, `sign` -/
 
 theorem small_generated : (Gen.small_const : α) = Scalar.SMALL := rfl
@@ -29,5 +50,7 @@ theorem small_generated : (Gen.small_const : α) = Scalar.SMALL := rfl
 theorem bound_generated (x : α) : Gen.util_bound x = PyOps.bound x := rfl
 
 theorem sign_generated (x : α) : Gen.util_sign x = Scalar.sign x := rfl
+
+theorem anglesEquivalent_generated (a b : α) : Gen.util_angles_equivalent a b = PyOps.anglesEquivalent a b := rfl
 
 end TieSolver
